@@ -27,6 +27,10 @@ PROVISIONAL = {'Nh': 'Uut', 'Mc': 'Uup', 'Ts': 'Uus', 'Og': 'Uuo'}
 
 PI = Num(Fr('3.14159265358979323846'), Fr(1, 10 ** 20))
 
+# witness values of a numeric argument besides 1: every branch on the argument is followed for each of them and the
+# result must be the same map of the argument
+WITNESSES = (('a negative number', Fr(-7, 3)), ('a tiny number', Fr(1, 10 ** 30)), ('a huge number', Fr(10 ** 30)))
+
 
 def interp_for_constants(repo):
     I = Interp(repo)
@@ -132,8 +136,39 @@ def check(run, repo):
     ud = {}
     for k_, num_, _v in fold_table(um, unit_node, {'Na': Na}):
         ud[k_] = num_
-    run.floor('unit_dict keys', len(ud), 60)
+    literal_units = set(ud)
     run.floor('type_dict keys', len(type_dict), 60)
+    by_type = {}
+    for u, ty in type_dict.items():
+        by_type.setdefault(ty, []).append(u)
+
+    # ---- the table as it stands when convert_unit looks a unit up: the rows of the literal are atoms; a row the
+    #      function derives before the look-up (or reaches under another name) is read off the public factor-only
+    #      form convert_unit(initial=<literal unit of the type>, final=u) and is an expression in those atoms
+    I = interp_for_constants(repo)
+    x = I.D.sym('x')
+    # branches on the number itself are decided for a witness value of the argument (x = 1 first; a negative, a tiny
+    # and a huge number further down must give the same map); the argument zero is a separate instance below
+    I.order = RankOrder({'x': 1}, const_ranks=True)
+    values = {'pi': PI}
+    for k, v in ud.items():
+        values['unit_dict[%s]' % k] = v
+    factor = {k: I.D.sym('unit_dict[%s]' % k) for k in ud}
+    for u, ty in sorted(type_dict.items()):
+        if ty == 'temp' or u in ud:
+            continue
+        base = sorted(b for b in by_type[ty] if b in literal_units)
+        r = call(I, m, 'convert_unit', initial=base[0], final=u) if base else None
+        if isinstance(r, Rat) and not r.iszero():
+            e_ = r * factor[base[0]]
+            vals = dict(values)
+            vals.update(I.table_atoms)
+            try:
+                ud[u] = eval_num(e_, vals)
+            except (Unsupported, ZeroDivisionError):
+                continue
+            factor[u] = e_
+    run.floor('unit_dict keys', len(ud), 60)
 
     # ---- duplicate keys silently shadowing entries (TABLE) -------------
     for tname, node in (('type_dict', type_node), ('unit_dict', unit_node)):
@@ -181,21 +216,38 @@ def check(run, repo):
                  'of C12 broken)' % u, um, unit_node)
 
     # ---- convert_unit: shape for every pair ------------------------------
-    I = interp_for_constants(repo)
-    x = I.D.sym('x')
-    # branches on the number itself are followed for a generic non-zero argument (witness x = 1); the argument zero
-    # is a separate instance below
-    I.order = RankOrder({'x': 1}, const_ranks=True)
     units = sorted(type_dict)
     types = sorted(set(type_dict.values()))
     run.floor('quantity types', len(types), 10)
-    by_type = {}
-    for u, ty in type_dict.items():
-        by_type.setdefault(ty, []).append(u)
     run.fn(MOD + '.convert_unit')
     pairs_ok = 0
     temp_maps = {}
+    scalar = {}
     thorough = run.tier == 'thorough'
+    cu = m.functions['convert_unit']
+
+    def under(w, thunk):
+        """the call made with the witness value w for the argument x (every comparison of the bare argument with a
+        constant is decided for that value)"""
+        old = I.order.ranks['x']
+        I.order.ranks['x'] = w
+        try:
+            return thunk()
+        finally:
+            I.order.ranks['x'] = old
+
+    def alike(p_, q_):
+        if isinstance(p_, Rat) and isinstance(q_, Rat):
+            return p_.eq(q_)
+        return isinstance(p_, Raised) and isinstance(q_, Raised) and p_.exc == q_.exc
+
+    def image(r, v):
+        """the map x -> r(x), affine in x, applied to v (None when r is not affine in x)"""
+        sl = r.split_linear('x') if isinstance(r, Rat) else None
+        if sl is None:
+            return None
+        return sl[0] * v + sl[1]
+
     for a in units:
         for b in units:
             ta, tb = type_dict[a], type_dict[b]
@@ -209,33 +261,48 @@ def check(run, repo):
                 run.check(isinstance(r, Raised) and r.exc == 'ValueError', 'ORDER.refuse',
                           'constants.convert_unit', key,
                           'conversion between quantity types %s and %s is not refused with '
-                          'ValueError (got %r)' % (ta, tb, r), m, m.functions['convert_unit'])
+                          'ValueError (got %r)' % (ta, tb, r), m, cu)
+                if thorough or a == sorted(by_type[ta])[0]:
+                    rw = under(WITNESSES[0][1], lambda: call(I, m, 'convert_unit', num=x, initial=a, final=b))
+                    run.check(isinstance(rw, Raised) and rw.exc == 'ValueError', 'ORDER.refuse', 'constants.convert_unit',
+                              key + ' for %s' % WITNESSES[0][0], 'conversion of %s between quantity types %s and %s is '
+                              'not refused with ValueError (got %r)' % (WITNESSES[0][0], ta, tb, rw), m, cu)
                 continue
             if isinstance(r, Raised) or r is None:
                 run.fail('SHAPE.convert', 'constants.convert_unit', key,
-                         'same-type conversion does not return a value (%r)' % (r,), m,
-                         m.functions['convert_unit'])
+                         'same-type conversion does not return a value (%r)' % (r,), m, cu)
                 continue
+            # one map for every number: the same conversion for a negative, a tiny and a huge argument
+            last = b == sorted(by_type[tb])[-1]
+            for k_, (wname, w) in enumerate(WITNESSES):
+                if k_ and not (thorough or last or ta == 'temp'):
+                    continue
+                rw = under(w, lambda: call(I, m, 'convert_unit', num=x, initial=a, final=b))
+                run.check(alike(rw, r), 'SHAPE.temp' if ta == 'temp' else 'SHAPE.convert', 'constants.convert_unit',
+                          '%s for %s' % (key, wname),
+                          'for %s (x = %s) the conversion is %r, for x = 1 it is %r: not one %s map of the argument'
+                          % (wname, show_(C(w)), rw, r, 'affine' if ta == 'temp' else 'proportional'), m, cu)
+            scalar[(a, b)] = r
             if ta == 'temp':
                 temp_maps[(a, b)] = r
                 continue
-            ua = I.D.sym('unit_dict[%s]' % a)
-            ub = I.D.sym('unit_dict[%s]' % b)
-            ok = r.eq(x * ub / ua)
+            if a not in factor or b not in factor:
+                continue            # reported under TABLE.factor
+            ok = r.eq(x * factor[b] / factor[a])
             run.check(ok, 'SHAPE.convert', 'constants.convert_unit', key,
                       'result is not num*unit_dict[final]/unit_dict[initial] (got %r): '
                       'reflexivity/invertibility/transitivity of the table algebra is lost' % (r,),
-                      m, m.functions['convert_unit'],
+                      m, cu,
                       sample='convert_unit(x,%s,%s) == x*U[%s]/U[%s]' % (a, b, b, a) if pairs_ok % 97 == 0 else None)
             pairs_ok += 1
-            if thorough or b == sorted(by_type[tb])[-1]:
+            if thorough or last:
                 z = call(I, m, 'convert_unit', num=C(0), initial=a, final=b)
                 run.check(isinstance(z, Rat) and z.iszero(), 'SHAPE.convert', 'constants.convert_unit',
                           'zero:%s->%s' % (a, b),
                           'converting the number zero does not give zero (got %r): conversion is not '
-                          'proportional to its argument' % (z,), m, m.functions['convert_unit'])
+                          'proportional to its argument' % (z,), m, cu)
     # the number zero is a number like any other: temperature scales keep their offsets, foreign types stay refused
-    for a, b in (('C', 'K'), ('K', 'C'), ('C', 'F'), ('F', 'R'), ('K', 'K')):
+    for a, b in (('C', 'K'), ('K', 'C'), ('C', 'F'), ('F', 'R'), ('K', 'K'), ('R', 'K'), ('K', 'F')):
         if a in type_dict and b in type_dict:
             z = call(I, m, 'convert_unit', num=C(0), initial=a, final=b)
             rx = temp_maps.get((a, b))
@@ -244,31 +311,72 @@ def check(run, repo):
                 wz = rx - x * I.D.d(rx, 'x')           # the affine map at 0
             run.check(isinstance(z, Rat) and isinstance(wz, Rat) and z.eq(wz), 'SHAPE.temp', 'constants.convert_unit',
                       'zero:%s->%s' % (a, b), 'converting 0 %s gives %r, the map for other numbers gives %r at 0'
-                      % (a, z, wz), m, m.functions['convert_unit'])
+                      % (a, z, wz), m, cu)
     for a, b in (('J', 'm'), ('C', 'J'), ('s', 'K')):
         if a in type_dict and b in type_dict:
             z = call(I, m, 'convert_unit', num=C(0), initial=a, final=b)
             run.check(isinstance(z, Raised) and z.exc == 'ValueError', 'ORDER.refuse', 'constants.convert_unit',
                       'zero:%s->%s' % (a, b), 'conversion of the number zero between quantity types is not refused '
-                      '(got %r)' % (z,), m, m.functions['convert_unit'])
-    # an array argument: converted element by element, the caller's array left as it was
-    for a, b in (('J', 'kcal'), ('C', 'K'), ('kPa', 'atm')):
-        if a in type_dict and b in type_dict:
-            arr = ListV([I.D.sym('x0'), I.D.sym('x1'), I.D.sym('x2')])
-            arr.is_array = True
-            arr.dtype = 'float'
+                      '(got %r)' % (z,), m, cu)
+
+    # an array argument: every element goes through the map of the numbers (elements of either sign and of very
+    # different size; a float array and an integer array - a temperature grid np.arange(300, 700, 100) is an everyday
+    # argument), the result is a new array, the caller's array is left as it was
+    def array_of(names, ranks, dtype):
+        arr = ListV([I.D.sym(n_) for n_ in names])
+        arr.is_array = True
+        arr.dtype = dtype
+        I.order.ranks.update(dict(zip(names, ranks)))
+        if dtype == 'int':
+            I.int_syms.update(names)
+        return arr
+
+    for kind, names, ranks in (('float', ('x0', 'x1', 'x2'), (Fr(-20), Fr(1, 2), Fr(10 ** 9))),
+                               ('int', ('k0', 'k1', 'k2'), (-20, 1, 300))):
+        for a, b in (('J', 'kcal'), ('C', 'K'), ('K', 'C'), ('K', 'R'), ('kPa', 'atm'), ('J', 'kJ')):
+            if (a, b) not in scalar:
+                continue
+            arr = array_of(names, ranks, kind)
             before = list(arr.items)
-            I.order.ranks.update({'x0': 1, 'x1': 1, 'x2': 1})
             ra = call(I, m, 'convert_unit', num=arr, initial=a, final=b)
-            each = [call(I, m, 'convert_unit', num=v_, initial=a, final=b) for v_ in before]
+            want = [image(scalar[(a, b)], v_) for v_ in before]
+            key = 'array:%s->%s' % (a, b) if kind == 'float' else '%s array:%s->%s' % (kind, a, b)
             ok = isinstance(ra, ListV) and len(ra) == 3 and all(isinstance(p_, Rat) and isinstance(q_, Rat) and p_.eq(q_)
-                                                                for p_, q_ in zip(ra.items, each))
-            run.check(ok, 'SHAPE.convert', 'constants.convert_unit', 'array:%s->%s' % (a, b),
-                      'an array is not converted element by element (got %r)' % (ra,), m, m.functions['convert_unit'])
+                                                                for p_, q_ in zip(ra.items, want))
+            run.check(ok, 'SHAPE.convert', 'constants.convert_unit', key,
+                      'an array of %s numbers is not converted element by element (got %r, the map of the numbers '
+                      'gives %r)' % (kind, ra, want), m, cu)
             run.check(all(p_ is q_ or (isinstance(p_, Rat) and p_.eq(q_)) for p_, q_ in zip(arr.items, before)) and
-                      len(arr.items) == 3, 'EFFECT.argument', 'constants.convert_unit', 'array:%s->%s' % (a, b),
-                      'the array handed in is modified by the conversion (now %r)' % (arr,), m,
-                      m.functions['convert_unit'])
+                      len(arr.items) == 3, 'EFFECT.argument', 'constants.convert_unit', key,
+                      'the array handed in is modified by the conversion (now %r)' % (arr,), m, cu)
+    for a, b in (('J', 'm'), ('K', 'J'), ('Pa', 'K')):
+        if a in type_dict and b in type_dict and type_dict[a] != type_dict[b]:
+            arr = array_of(('x0', 'x1', 'x2'), (Fr(-20), Fr(1, 2), Fr(10 ** 9)), 'float')
+            ra = call(I, m, 'convert_unit', num=arr, initial=a, final=b)
+            run.check(isinstance(ra, Raised) and ra.exc == 'ValueError', 'ORDER.refuse', 'constants.convert_unit',
+                      'array:%s->%s' % (a, b), 'conversion of an array between quantity types is not refused with '
+                      'ValueError (got %r)' % (ra,), m, cu)
+    # nothing is remembered between calls: a second number, a second array, the first one again
+    y = I.D.sym('y')
+    I.order.ranks['y'] = 2
+    for a, b in (('K', 'C'), ('eV', 'J'), ('bar', 'kPa')):
+        if (a, b) not in scalar:
+            continue
+        r1 = call(I, m, 'convert_unit', num=x, initial=a, final=b)
+        r2 = call(I, m, 'convert_unit', num=y, initial=a, final=b)
+        r3 = call(I, m, 'convert_unit', num=x, initial=a, final=b)
+        w2 = image(scalar[(a, b)], y)
+        a1 = array_of(('x0', 'x1', 'x2'), (Fr(1, 2), 2, 3), 'float')
+        a2 = array_of(('y0', 'y1', 'y2'), (Fr(1, 2), 2, 3), 'float')
+        s1 = call(I, m, 'convert_unit', num=a1, initial=a, final=b)
+        s2 = call(I, m, 'convert_unit', num=a2, initial=a, final=b)
+        ws = [image(scalar[(a, b)], v_) for v_ in a2.items]
+        ok = alike(r1, scalar[(a, b)]) and alike(r3, scalar[(a, b)]) and isinstance(w2, Rat) and alike(r2, w2) and \
+            isinstance(s1, ListV) and isinstance(s2, ListV) and s2 is not s1 and len(s2) == 3 and \
+            all(isinstance(q_, Rat) and alike(p_, q_) for p_, q_ in zip(s2.items, ws))
+        run.check(ok, 'EFFECT.shared-state', 'constants.convert_unit', 'second call:%s->%s' % (a, b),
+                  'a conversion depends on the conversions made before it: x, then y, then x again give %r, %r, %r; a '
+                  'second array gives %r (expected %r)' % (r1, r2, r3, s2, ws), m, cu)
     # num omitted -> factor only
     r = call(I, m, 'convert_unit', initial='J', final='kJ')
     run.check(isinstance(r, Rat) and r.eq(I.D.sym('unit_dict[kJ]') / I.D.sym('unit_dict[J]')),
@@ -397,10 +505,30 @@ def check(run, repo):
                 'prefixed unit is not the stated multiple of its base unit')
 
     # ---- constant tables: every key, through the real functions ----------
-    values = dict(I.table_atoms)
-    values['pi'] = PI
+    values.update(I.table_atoms)
     for k, v in ud.items():
-        values['unit_dict[%s]' % k] = v
+        values.setdefault('unit_dict[%s]' % k, v)
+
+    def same(got, want):
+        """got and want denote one quantity: the same normal form, or - where the two sides reach it through different
+        table entries (c in cm/s or c in m/s through the length factors, R under two keys that hold one number) - a
+        quotient that is free of the argument and is 1 on the folded table values within the roundings of the literals
+        (exactly 1 where the literals are exact)"""
+        if not isinstance(got, Rat) or not isinstance(want, Rat):
+            return False
+        if got.eq(want):
+            return True
+        if got.iszero() or want.iszero():
+            return False
+        vals = dict(values)
+        vals.update(I.table_atoms)
+        try:
+            q = got / want
+            if any(a_ not in vals for a_ in q.atoms()):
+                return False
+            return eval_num(q, vals).approx(Num(1))
+        except (Unsupported, ZeroDivisionError):
+            return False
 
     def const_fn(fname, keys, **extra):
         out = {}
@@ -441,7 +569,7 @@ def check(run, repo):
     cv = const_fn('c', ckeys)
     for k in hkeys:
         if k in hv and k in hbar:
-            ok = hbar[k][0].eq(hv[k][0] / (C(2) * I.D.sym('pi')))
+            ok = same(hbar[k][0], hv[k][0] / (C(2) * I.D.sym('pi')))
             run.check(ok, 'REF.hbar', 'constants.h', 'bar:%s' % k, 'h(bar=True) is not h/(2 pi)', m,
                       m.functions['h'])
     if 'J/mol/K' not in Rv or 'J/K' not in kbv or 'J s' not in hv:
@@ -471,11 +599,23 @@ def check(run, repo):
     rel('constants.R', R_SI, kb_SI * Na, 'R=kb*Na', 'R differs from kb*Na', Rnode, 'TABLE.const')
     for k, (_, got) in sorted(kbv.items()):
         nump, den = split_unit(k)
-        rel('constants.kb', got, kb_SI * ufac(nump), 'kb[%s]' % k,
+        try:
+            want = kb_SI * ufac(nump)
+        except KeyError as e:
+            run.fail('TABLE.const', 'constants.kb', 'key:%s' % k,
+                     'unit part %s of kb key has no conversion factor' % e, table_mod.get(id(kbnode), m), kbnode)
+            continue
+        rel('constants.kb', got, want, 'kb[%s]' % k,
             'kb(%r) is not kb(J/K) converted through unit_dict' % k, kbnode, 'TABLE.const')
     for k, (_, got) in sorted(hv.items()):
         e_unit = k.split(' ')[0]
-        rel('constants.h', got, h_SI * ufac([e_unit]), 'h[%s]' % k,
+        try:
+            want = h_SI * ufac([e_unit])
+        except KeyError as e:
+            run.fail('TABLE.const', 'constants.h', 'key:%s' % k,
+                     'unit part %s of h key has no conversion factor' % e, table_mod.get(id(hnode), m), hnode)
+            continue
+        rel('constants.h', got, want, 'h[%s]' % k,
             'h(%r) is not h(J s) converted through unit_dict' % k, hnode, 'TABLE.const')
     if 'm/s' in cv and 'cm/s' in cv:
         rel('constants.c', cv['cm/s'][1], cv['m/s'][1] * ud['cm'], 'c[cm/s]', 'c(cm/s) is not c(m/s)*100',
@@ -505,8 +645,10 @@ def check(run, repo):
                               '%s(%r) is not %s(%r) converted' % (fname, u, fname, base_unit), m, fn)
                     n += 1
                 continue
-            want = rb * I.D.sym('unit_dict[%s]' % u) / I.D.sym('unit_dict[%s]' % base_unit)
-            run.check(isinstance(r, Rat) and r.eq(want), 'TABLE.const', 'constants.%s' % fname,
+            if u not in factor or base_unit not in factor or not isinstance(rb, Rat):
+                continue            # reported under TABLE.factor / SHAPE.const
+            want = rb * factor[u] / factor[base_unit]
+            run.check(same(r, want), 'TABLE.const', 'constants.%s' % fname,
                       '%s[%s]' % (fname, u),
                       '%s(%r) is not %s(%r) passed through the unit table' % (fname, u, fname, base_unit),
                       m, fn)
@@ -531,18 +673,18 @@ def check(run, repo):
     r = call(I, m, 'V0', units='m3')
     want = I.D.sym('%s[J/mol/K]' % Rn) * C(Fr('298.15')) / \
         (C(1) * I.D.sym('unit_dict[Pa]') / I.D.sym('unit_dict[bar]'))
-    run.check(isinstance(r, Rat) and r.eq(want), 'REF.V0', 'constants.V0', 'V0[m3]',
+    run.check(same(r, want), 'REF.V0', 'constants.V0', 'V0[m3]',
               'V0 is not R*T0/P0 (got %r)' % (r,), m, m.functions['V0'])
 
     # ---- spectroscopic helpers ------------------------------------------
-    helpers(run, repo, I, m, values)
+    helpers(run, repo, I, m, values, same)
     # ---- element tables ---------------------------------------------------
     elements(run, repo, m)
     run.sample({'temperature_maps': {'%s->%s' % k: [str(v[0]), str(v[1])] for k, v in sorted(aff.items())}})
     run.extra['pairs_checked'] = pairs_ok
 
 
-def helpers(run, repo, I, m, values):
+def helpers(run, repo, I, m, values, same):
     kinds = ('energy', 'freq', 'temp', 'wavenumber')
     x = I.D.sym('x')
     fns = {}
@@ -560,37 +702,69 @@ def helpers(run, repo, I, m, values):
 
     for a, b in itertools.combinations(kinds, 2):
         r = app(fns[(b, a)], app(fns[(a, b)], x))
-        run.check(isinstance(r, Rat) and r.eq(x), 'ALG.helper.inverse', 'constants.%s' % fns[(a, b)],
+        run.check(same(r, x), 'ALG.helper.inverse', 'constants.%s' % fns[(a, b)],
                   '%s o %s' % (fns[(b, a)], fns[(a, b)]),
                   '%s(%s(x)) = %r, not x' % (fns[(b, a)], fns[(a, b)], r), m, m.functions[fns[(a, b)]],
                   sample='%s(%s(x)) == x' % (fns[(b, a)], fns[(a, b)]))
         r = app(fns[(a, b)], app(fns[(b, a)], x))
-        run.check(isinstance(r, Rat) and r.eq(x), 'ALG.helper.inverse', 'constants.%s' % fns[(b, a)],
+        run.check(same(r, x), 'ALG.helper.inverse', 'constants.%s' % fns[(b, a)],
                   '%s o %s' % (fns[(a, b)], fns[(b, a)]),
                   '%s(%s(x)) = %r, not x' % (fns[(a, b)], fns[(b, a)], r), m, m.functions[fns[(b, a)]])
     for a, b, c3 in itertools.permutations(kinds, 3):
         r = app(fns[(b, c3)], app(fns[(a, b)], x))
         d = app(fns[(a, c3)], x)
-        run.check(isinstance(r, Rat) and r.eq(d), 'ALG.helper.transitive', 'constants.%s' % fns[(a, c3)],
+        run.check(same(r, d), 'ALG.helper.transitive', 'constants.%s' % fns[(a, c3)],
                   '%s via %s' % (fns[(a, c3)], b),
                   '%s(%s(x)) differs from %s(x)' % (fns[(b, c3)], fns[(a, b)], fns[(a, c3)]), m,
                   m.functions[fns[(a, c3)]])
-    # arrays: every helper maps an array element by element and leaves the caller's array alone
+    # one map for every number: the helper gives the same function of its argument for a negative, a tiny and a huge
+    # argument as for x = 1
+    every = dict(('%s_to_%s' % k_, v_) for k_, v_ in fns.items())
+    for extra in ('debye_to_einstein', 'einstein_to_debye', 'wavenumber_to_inertia', 'inertia_to_temp'):
+        if extra not in m.functions:
+            raise AnchorError('%s.%s not found' % (MOD, extra))
+        every[extra] = extra
+    for name in sorted(every):
+        r1 = app(name, x)
+        for wname, w in WITNESSES:
+            old = I.order.ranks.get('x')
+            I.order.ranks['x'] = w
+            try:
+                rw = app(name, x)
+            finally:
+                I.order.ranks['x'] = old
+            run.check(isinstance(rw, Rat) and isinstance(r1, Rat) and rw.eq(r1), 'SHAPE.helper', 'constants.%s' % name,
+                      'argument: %s' % wname, 'for %s %s(x) is %r, for x = 1 it is %r: not one function of the argument'
+                      % (wname, name, rw, r1), m, m.functions[name])
+    # arrays: every helper maps an array element by element (float and integer elements, of either sign and of very
+    # different size), returns a new array and leaves the caller's array alone
     from ..xlate import ListV as _LV
-    for (a, b), name in sorted(fns.items()):
-        xs = [I.D.sym('x0'), I.D.sym('x1')]
-        arr = _LV(list(xs))
-        arr.is_array = True
-        r = app(name, arr)
-        each = [app(name, v) for v in xs]
-        ok = isinstance(r, _LV) and len(r) == 2 and all(isinstance(p_, Rat) and p_.eq(q_) for p_, q_ in
-                                                          zip(r.items, each))
-        run.check(ok, 'BRANCH-TWIN.helper', 'constants.%s' % name, 'array argument',
-                  '%s of an array is %r, element by element %r' % (name, r, each), m, m.functions[name])
-        run.check(len(arr.items) == 2 and all(p_ is q_ for p_, q_ in zip(arr.items, xs)), 'EFFECT.argument',
-                  'constants.%s' % name, 'array argument',
-                  '%s modifies the array it was given (now %r): a second use of the caller\'s array sees converted '
-                  'values' % (name, arr), m, m.functions[name])
+    for kind, names, ranks in (('float', ('x0', 'x1'), (Fr(-20), Fr(10 ** 9))), ('int', ('k0', 'k1'), (-20, 300))):
+        for name in sorted(every):
+            xs = [I.D.sym(n_) for n_ in names]
+            I.order.ranks.update(dict(zip(names, ranks)))
+            if kind == 'int':
+                I.int_syms.update(names)
+            arr = _LV(list(xs))
+            arr.is_array = True
+            arr.dtype = kind
+            r = app(name, arr)
+            r1 = app(name, x)
+            sl = r1.split_linear('x') if isinstance(r1, Rat) else None
+            if sl is not None:
+                each = [sl[0] * v + sl[1] for v in xs]           # the (verified) map of the numbers at the element
+            else:
+                each = [app(name, v) for v in xs]
+            ok = isinstance(r, _LV) and len(r) == 2 and all(isinstance(p_, Rat) and isinstance(q_, Rat) and p_.eq(q_)
+                                                              for p_, q_ in zip(r.items, each))
+            key = 'array argument' if kind == 'float' else '%s array argument' % kind
+            run.check(ok, 'BRANCH-TWIN.helper', 'constants.%s' % name, key,
+                      '%s of an array of %s numbers is %r, element by element %r' % (name, kind, r, each), m,
+                      m.functions[name])
+            run.check(len(arr.items) == 2 and all(p_ is q_ for p_, q_ in zip(arr.items, xs)),
+                      'EFFECT.argument', 'constants.%s' % name, key,
+                      '%s modifies the array it was given (now %r): a second use of the caller\'s array sees converted '
+                      'values' % (name, arr), m, m.functions[name])
     # textbook anchors (REF): E = h nu = kB T = h c nu~  (cm/s because wavenumbers are in 1/cm)
     h = I.D.sym('h_dict[J s]')
     kb = I.D.sym('kb_dict[J/K]')
@@ -598,7 +772,7 @@ def helpers(run, repo, I, m, values):
     ref = {('freq', 'energy'): x * h, ('temp', 'energy'): x * kb, ('wavenumber', 'energy'): x * h * c_cm}
     for (a, b), want in ref.items():
         r = app(fns[(a, b)], x)
-        run.check(isinstance(r, Rat) and r.eq(want), 'REF.helper', 'constants.%s' % fns[(a, b)],
+        run.check(same(r, want), 'REF.helper', 'constants.%s' % fns[(a, b)],
                   fns[(a, b)], '%s(x) = %r is not the textbook %r' % (fns[(a, b)], r, want), m,
                   m.functions[fns[(a, b)]])
     # Debye <-> Einstein
@@ -606,7 +780,7 @@ def helpers(run, repo, I, m, values):
         if f not in m.functions or g not in m.functions:
             raise AnchorError('%s.%s not found' % (MOD, f))
         r = app(g, app(f, x))
-        run.check(isinstance(r, Rat) and r.eq(x), 'ALG.helper.inverse', 'constants.%s' % f,
+        run.check(same(r, x), 'ALG.helper.inverse', 'constants.%s' % f,
                   '%s o %s' % (g, f), '%s(%s(x)) is not x' % (g, f), m, m.functions[f])
         run.fn(MOD + '.' + f)
     r = app('debye_to_einstein', x)
@@ -617,7 +791,7 @@ def helpers(run, repo, I, m, values):
     r = app('wavenumber_to_inertia', x)
     pi = I.D.sym('pi')
     want = h / (C(8) * pi * pi * x * c_cm)
-    run.check(isinstance(r, Rat) and r.eq(want), 'REF.helper', 'constants.wavenumber_to_inertia',
+    run.check(same(r, want), 'REF.helper', 'constants.wavenumber_to_inertia',
               'wavenumber_to_inertia', 'is not h/(8 pi^2 c nu)', m, m.functions['wavenumber_to_inertia'])
     run.fn(MOD + '.wavenumber_to_inertia', MOD + '.inertia_to_temp')
     # inertia_to_temp == hbar^2/(2 kB I): exact in shape (monomial in I), numeric in the constants
@@ -643,57 +817,78 @@ def helpers(run, repo, I, m, values):
                           'want': float(want.v), 'rel_dev': float(dev), 'tol': float(tol)})
 
 
-def later_updates(m, tname, node):
-    """(key node, value node) pairs that module-level statements put into the table after its literal
-    (``table.update({...})``, ``table[key] = value``), in execution order; anything else that touches the table at
-    module level is outside what is folded"""
-    out = []
-    after = False
-    for st in m.tree.body:
-        if isinstance(st, ast.Assign) and st.value is node:
-            after = True
+def module_tables(repo, m, names):
+    """the element tables as they stand once the module has been imported: the module body is interpreted statement by
+    statement (a literal, later ``update`` calls and item assignments, a helper function that is handed the table, an
+    alias, rows derived from other rows - whatever the module does), and the final value of each name is read.
+    -> {name: {key: Fraction}}"""
+    I = Interp(repo)
+    fr = xlate.Frame(I, m, {}, None, None)
+    try:
+        fr.exec_block(m.tree.body)
+    except xlate._RaisedExc as e:
+        raise Unsupported('the module body of %s raises %r' % (m.name, e.raised), getattr(e.raised, 'node', None),
+                          m.relpath)
+    out = {}
+    for tname in names:
+        t = fr.env.get(tname)
+        if not isinstance(t, DictV):
+            raise AnchorError('%s.%s is not a table after the module body has run' % (m.name, tname))
+        tab = {}
+        for nk, v in t.d.items():
+            k = t.okey(nk)
+            if isinstance(k, Rat) and (k.is_const() or k.iszero()):
+                kv = Fr(0) if k.iszero() else k.const_value()
+                k = int(kv) if kv.denominator == 1 else float(kv)
+            if not isinstance(k, (str, int, float)) or isinstance(k, bool):
+                raise Unsupported('key %r of %s.%s' % (k, m.name, tname), None, m.relpath)
+            if not (isinstance(v, Rat) and (v.is_const() or v.iszero())):
+                raise Unsupported('entry %r of %s.%s is not a number (%r)' % (k, m.name, tname, v), None, m.relpath)
+            tab[k] = Fr(0) if v.iszero() else v.const_value()
+        out[tname] = tab
+    # writes from outside: a module-level statement of another module of the package that hands a table on or stores
+    # into it runs at import as well and is outside what was interpreted above
+    for om in repo.modules.values():
+        if om is m:
             continue
-        if not after:
-            continue
-        if isinstance(st, ast.Expr) and isinstance(st.value, ast.Call) and isinstance(st.value.func, ast.Attribute) \
-                and isinstance(st.value.func.value, ast.Name) and st.value.func.value.id == tname:
-            if st.value.func.attr == 'update' and len(st.value.args) == 1 and isinstance(st.value.args[0], ast.Dict) \
-                    and not st.value.keywords:
-                out.extend(zip(st.value.args[0].keys, st.value.args[0].values))
+        for st in om.tree.body:
+            if isinstance(st, (ast.FunctionDef, ast.AsyncFunctionDef, ast.ClassDef, ast.Import, ast.ImportFrom)):
                 continue
-            raise Unsupported('module-level %s.%s(...) after the table literal' % (tname, st.value.func.attr), st,
-                              m.relpath)
-        if isinstance(st, ast.Assign) and len(st.targets) == 1 and isinstance(st.targets[0], ast.Subscript) and \
-                isinstance(st.targets[0].value, ast.Name) and st.targets[0].value.id == tname:
-            out.append((st.targets[0].slice, st.value))
-            continue
-        if isinstance(st, (ast.AugAssign, ast.Delete, ast.For, ast.While, ast.If, ast.With, ast.Try)) and \
-                any(isinstance(x, ast.Name) and x.id == tname for x in ast.walk(st)):
-            raise Unsupported('module-level statement modifies the table %s' % tname, st, m.relpath)
+            hits = [n_ for n_ in ast.walk(st) if (isinstance(n_, ast.Attribute) and n_.attr in names) or
+                    (isinstance(n_, ast.Name) and n_.id in names)]
+            if not hits:
+                continue
+            parent = {}
+            for p_ in ast.walk(st):
+                for c_ in ast.iter_child_nodes(p_):
+                    parent[id(c_)] = p_
+            for n_ in hits:
+                nm = n_.attr if isinstance(n_, ast.Attribute) else n_.id
+                r = repo.resolve_expr(om, n_)
+                if not (isinstance(r, tuple) and r[0] == 'value' and r[1] is m):
+                    continue
+                up = parent.get(id(n_))
+                if isinstance(up, ast.Subscript) and up.value is n_ and isinstance(up.ctx, ast.Load):
+                    continue            # an entry is read
+                if isinstance(up, ast.Compare) and n_ in up.comparators:
+                    continue            # membership is tested
+                raise Unsupported('module-level statement of %s touches the table %s.%s' % (om.name, m.name, nm),
+                                  st, om.relpath)
     return out
 
 
 def elements(run, repo, m):
+    tables = module_tables(repo, m, ('atomic_weight', 'S_elements'))
     for tname, floor in (('atomic_weight', 117), ('S_elements', 92)):
         node = m.assigns.get(tname, [None])[-1]
-        if not isinstance(node, ast.Dict):
-            raise AnchorError('%s literal not found' % tname)
-        if len(m.assigns[tname]) > 1:
-            run.fail('TABLE.rebound', 'constants.%s' % tname, 'rebound',
-                     'module-level table %s is bound %d times; the later binding silently replaces '
-                     'the earlier' % (tname, len(m.assigns[tname])), m, node)
-        tab = {}
-        dup = []
-        for k, v in zip(node.keys, node.values):
-            kk = fold_value(m, k)
-            if kk in tab:
-                dup.append(kk)
-            tab[kk] = fold_num(m, v)
-        # entries written after the literal replace what the literal says
-        for k, v in later_updates(m, tname, node):
-            tab[fold_value(m, k)] = fold_num(m, v)
-        run.check(not dup, 'TABLE.dupkey', 'constants.%s' % tname, 'dup:%s' % dup,
-                  'duplicate keys %s' % dup, m, node)
+        tab = tables[tname]
+        if isinstance(node, ast.Dict):
+            # a key written twice in one literal: the earlier entry is silently lost
+            dup = duplicate_keys(m, node)
+            run.check(not dup, 'TABLE.dupkey', 'constants.%s' % tname, 'dup:%s' % dup,
+                      'duplicate keys %s' % dup, m, node)
+        if node is None:
+            raise AnchorError('%s not found' % tname)
         nums = sorted(k for k in tab if isinstance(k, int))
         run.floor('%s atomic numbers' % tname, len(nums), floor)
         n_ok = 0
@@ -709,9 +904,9 @@ def elements(run, repo, m):
                          'element %d has no entry under its symbol %s' % (z, sym), m, node)
                 continue
             for s in cands:
-                run.check(tab[s].v == tab[z].v, 'TABLE.element', 'constants.%s' % tname, 'Z:%d=%s' % (z, s),
-                          '%s[%d] = %s but %s[%r] = %s' % (tname, z, float(tab[z].v), tname, s,
-                                                          float(tab[s].v)), m, node,
+                run.check(tab[s] == tab[z], 'TABLE.element', 'constants.%s' % tname, 'Z:%d=%s' % (z, s),
+                          '%s[%d] = %s but %s[%r] = %s' % (tname, z, float(tab[z]), tname, s,
+                                                          float(tab[s])), m, node,
                           sample='%s[%d] == %s[%r]' % (tname, z, tname, s) if z in (1, 26, 92) else None)
                 n_ok += 1
         syms = [k for k in tab if isinstance(k, str)]
@@ -730,9 +925,7 @@ def elements(run, repo, m):
     run.fn('pmutt.get_molecular_weight')
     I = Interp(repo)
     n1, n2, n3 = I.D.sym('n1'), I.D.sym('n2'), I.D.sym('n3')
-    node = m.assigns['atomic_weight'][-1]
-    tab = {fold_value(m, k): fold_num(m, v).v for k, v in zip(node.keys, node.values)}
-    tab.update({fold_value(m, k): fold_num(m, v).v for k, v in later_updates(m, 'atomic_weight', node)})
+    tab = tables['atomic_weight']
     for comp in (('C', 'H', 'O'), ('Pt', 'Cl', 'N'), (6, 1, 8)):
         if not all(k in tab for k in comp):
             continue
@@ -797,6 +990,9 @@ for _d, _us in (
 
 
 K_ = 'pmutt/constants.py'
+_TEMP = "        # Evaluating each combination\n"
+_LIN = "        result = num * unit_dict[final] / unit_dict[initial]"
+_AW_END = '"""dict : Atomic weight. The key can be the atomic number, the element symbol,\nor the element name"""\n'
 MUTANTS = [
     {'name': 'the caller\'s array is scaled in place', 'expect': ('EFFECT.argument', 'convert_unit'),
      'edits': [(K_, "        result = num * unit_dict[final] / unit_dict[initial]", "        result = num\n        result *= unit_dict[final] / unit_dict[initial]")]},
@@ -812,4 +1008,68 @@ MUTANTS = [
      'edits': [(K_, "    'mmHg': 'pressure',", "    'mmHg': 'length',")]},
     {'name': 'conversion between unit types no longer refused', 'expect': ('ORDER.refuse', 'convert_unit'),
      'edits': [(K_, "    if initial_type != final_type:", "    if initial_type != final_type and False:")]},
+    # white-box round 2
+    {'name': 'absolute temperatures clipped at zero (np.maximum)', 'expect': ('SHAPE.temp', 'convert_unit'),
+     'edits': [(K_, _TEMP, "        if initial in ('K', 'R'):\n            num = np.maximum(num, 0.)\n" + _TEMP)]},
+    {'name': 'absolute temperatures below zero set to zero (comparison of the argument)',
+     'expect': ('SHAPE.temp', 'convert_unit'),
+     'edits': [(K_, _TEMP, "        if initial in ('K', 'R') and num < 0.:\n            num = 0.\n" + _TEMP)]},
+    {'name': 'negative pressures taken as zero', 'expect': ('SHAPE.convert', 'convert_unit'),
+     'edits': [(K_, _LIN, "        if initial_type == 'pressure' and num < 0.:\n            num = 0.\n" + _LIN)]},
+    {'name': 'numbers below 1e-20 flushed to zero', 'expect': ('SHAPE.convert', 'convert_unit'),
+     'edits': [(K_, _LIN, "        if 0. < num < 1.e-20:\n            num = 0.\n" + _LIN)]},
+    {'name': 'temperatures above 1e20 refused', 'expect': ('SHAPE.temp', 'convert_unit'),
+     'edits': [(K_, _TEMP, "        if num > 1.e20:\n            raise ValueError('not a temperature')\n" + _TEMP)]},
+    {'name': 'lists accepted through np.asarray, scaled in place', 'expect': ('EFFECT.argument', 'convert_unit'),
+     'edits': [(K_, _LIN, "        if isinstance(num, (list, tuple, np.ndarray)):\n"
+                "            result = np.asarray(num, dtype=float)\n"
+                "            result *= unit_dict[final] / unit_dict[initial]\n            return result\n" + _LIN)]},
+    {'name': 'arrays converted before the quantity types are compared', 'expect': ('ORDER.refuse', 'convert_unit'),
+     'edits': [(K_, "    if initial_type != final_type:", "    if isinstance(num, np.ndarray) and 'temp' not in (initial_type, "
+                "final_type):\n        return num * unit_dict[final] / unit_dict[initial]\n    if initial_type != final_type:")]},
+    {'name': 'results remembered per pair of units', 'expect': ('EFFECT.shared-state', 'convert_unit'),
+     'edits': [(K_, "def convert_unit(num=None, initial=None, final=None):", "_converted = {}\n\n\n"
+                "def convert_unit(num=None, initial=None, final=None):"),
+               (K_, "        result = num * unit_dict[final] / unit_dict[initial]\n    return result",
+                "        if num is not None and initial + '>' + final in _converted:\n            return _converted[initial + '>' + final]\n"
+                "        result = num * unit_dict[final] / unit_dict[initial]\n"
+                "        _converted[initial + '>' + final] = result\n    return result")]},
+    {'name': 'convert_unit behind a memoising decorator keyed on the text of the arguments', 'expect': 'error',
+     'edits': [(K_, "def convert_unit(num=None, initial=None, final=None):", "def _memoize(func):\n    cache = {}\n\n"
+                "    def wrapper(*args, **kwargs):\n        key = str(args) + str(sorted(kwargs.items()))\n"
+                "        if key not in cache:\n            cache[key] = func(*args, **kwargs)\n        return cache[key]\n"
+                "    return wrapper\n\n\n@_memoize\ndef convert_unit(num=None, initial=None, final=None):")]},
+    {'name': 'atomic weights revised by symbol through a helper called at module level',
+     'expect': ('TABLE.element', 'atomic_weight'),
+     'edits': [(K_, _AW_END, _AW_END + "\n\ndef _revise(table, revisions):\n    for element, value in revisions.items():\n"
+                "        table[element] = value\n\n\n_revise(atomic_weight, {'Ar': 39.95, 'Yb': 173.045})\n")]},
+    {'name': 'atomic weight revised by symbol through an alias of the table', 'expect': ('TABLE.element', 'atomic_weight'),
+     'edits': [(K_, _AW_END, _AW_END + "_weights = atomic_weight\n_weights['Ar'] = 39.95\n")]},
+    {'name': 'helper clips negative wavenumbers', 'expect': ('SHAPE.helper', 'wavenumber_to_temp'),
+     'edits': [(K_, "    return wavenumber * c('cm/s') * h('J s') / kb('J/K')",
+                "    return np.maximum(wavenumber, 0.) * c('cm/s') * h('J s') / kb('J/K')")]},
+]
+
+# behaviour-preserving rewrites (white-box round 2, part B, reduced to their essential edits): must stay silent
+EQUIV = [
+    {'name': 'helpers take c in cm/s from the SI value and the unit table',
+     'edits': [(K_, "    return wavenumber * c('cm/s') * h('J s')\n",
+                "    return wavenumber * (c('m/s') * convert_unit(initial='m', final='cm')) * h('J s')\n"),
+               (K_, "    return h('J s') / (8. * np.pi**2 * wavenumber * c('cm/s'))",
+                "    return h('J s') / (8. * np.pi**2 * wavenumber * (c('m/s') * convert_unit(initial='m', final='cm')))"),
+               (K_, "    return freq / c('cm/s')", "    return freq / (c('m/s') * convert_unit(initial='m', final='cm'))")]},
+    {'name': 'Hartree per particle derived from the Hartree rows inside convert_unit',
+     'edits': [(K_, "        'Eh/particle': 2.2937122783963248e+17 / 6.02214086e23,\n", ""),
+               (K_, "        'Ha/particle': 2.2937122783963248e+17 / 6.02214086e23,\n", ""),
+               (K_, "    # Check if the entry exists\n", "    for hartree in ('Eh', 'Ha'):\n"
+                "        unit_dict[hartree + '/particle'] = unit_dict[hartree] / Na\n    # Check if the entry exists\n")]},
+    {'name': 'V0 reads R under the key whose units cancel',
+     'edits': [(K_, "    V0 = R('J/mol/K') * T0('K') / P0('Pa')", "    V0 = R('m3 Pa/mol/K') * T0('K') / P0('Pa')")]},
+    {'name': 'the alias Ha routed to the row Eh',
+     'edits': [(K_, "        'Ha': 2.2937122783963248e+17,\n", ""),
+               (K_, "    # Check if the entry exists\n", "    aliases = {'Ha': 'Eh'}\n    initial = aliases.get(initial, initial)\n"
+                "    final = aliases.get(final, final)\n    # Check if the entry exists\n")]},
+    {'name': 'symbol rows of three elements derived from the number rows',
+     'edits': [(K_, _AW_END, _AW_END + "atomic_weight.update({_s: atomic_weight[_z] for _z, _s in "
+                "enumerate(['H', 'He', 'Li'], start=1)})\n")]},
 ]
